@@ -473,17 +473,59 @@ def validate_facts(tag, path, shards=12):
             open(f, "w").write("\n".join(part) + "\n")
             files.append(f)
     tt, mm = parallel_trace_specs(tag + "_facts", files, "FactsTrace.tla", "FactsTrace.cfg")
-    viols, seen = [], set()
+    # FactsTrace reports WITNESSES: an input on which the operator tree the code built, or one of the facts it derived,
+    # is wrong according to the model.  A witness becomes a violation only when the running code, called on it, gives a
+    # result the specification rejects (ApiTrace.tla on the trace of those calls).
+    cands, seen, per = [], set(), {}
     for (f, line, kind, info) in mm:
         ev = json.loads(open(f).read().splitlines()[line - 1])
-        key = (kind, cps_s(ev["pat"]), cps_s(ev["flags"]), json.dumps(info.get("fact") if isinstance(info, dict) else None))
-        if key in seen:
+        if not isinstance(info, dict):
+            continue
+        inp = info.get("input", [])
+        key = (cps_s(ev["pat"]), cps_s(ev["flags"]), ev["xpath"], tuple(inp))
+        pk = key[:3]
+        if key in seen or per.get(pk, 0) >= 4:
             continue
         seen.add(key)
-        viols.append({"kind": kind, "pat_s": cps_s(ev["pat"]), "flags": cps_s(ev["flags"]), "x": ev["xpath"],
-                      "s_s": cps_s(info.get("input", [])) if isinstance(info, dict) else "", "call": "compile-time fact",
-                      "expected": info, "observed": ev["facts"], "cut": 0})
+        per[pk] = per.get(pk, 0) + 1
+        cands.append({"pat": ev["pat"], "flags": ev["flags"], "x": ev["xpath"], "input": inp, "start": info.get("start", 0),
+                      "kind": kind, "info": info})
+    viols = confirm_witnesses(tag + "_confirm", cands[:200]) if cands else []
+    tt["witnesses"] = len(cands)
+    tt["witnesses_confirmed"] = len(viols)
+    if cands and not viols:
+        log("stage %s: %d witness(es) from FactsTrace, none confirmed by the running code (first: %s)" % (
+            tag, len(cands), json.dumps({"pat": cps_s(cands[0]["pat"]), "flags": cps_s(cands[0]["flags"]),
+                                         "input": cps_s(cands[0]["input"]), "info": cands[0]["info"]})[:400]))
     return viols, tt
+
+
+def confirm_witnesses(tag, cands):
+    """Call the real code (tracer on) on each witness input - and on its suffix from the witness start - and validate
+    the recorded trace with ApiTrace.tla.  Returns the mismatches ApiTrace finds (ordinary violations)."""
+    d = os.path.join(WORK, tag)
+    shutil.rmtree(d, ignore_errors=True)
+    os.makedirs(os.path.join(d, "trace"))
+    env = dict(os.environ, REGEXML_VERIF_TRACE=os.path.join(d, "trace"))
+    viols = []
+    jobs = []
+    for n, c in enumerate(cands):
+        inputs = [c["input"]]
+        if c["start"] > 0:
+            inputs.append(c["input"][c["start"]:])
+        calls = []
+        for s in inputs:
+            calls += [{"op": "is_match", "s": s, "r": []}, {"op": "analyze", "s": s, "r": []},
+                      {"op": "tokenize", "s": s, "r": []}, {"op": "replace", "s": s, "r": [91, 36, 48, 93]}]
+        jobs.append({"id": n + 1, "pat": c["pat"], "flags": c["flags"], "x": c["x"], "unopt": False, "calls": calls})
+    for j in jobs:
+        try:
+            subprocess.run([BIN, "worker"], input=json.dumps(j) + "\n", stdout=subprocess.PIPE, text=True, env=env, timeout=60)
+        except subprocess.TimeoutExpired:
+            viols.append({"kind": "hang", "pat_s": cps_s(j["pat"]), "flags": cps_s(j["flags"]), "x": j["x"],
+                          "s_s": cps_s(j["calls"][0]["s"]), "call": "is_match", "expected": "returns", "observed": {"k": "hang"}, "cut": 0})
+    tt, vv = validate_traces(tag, d)
+    return viols + vv
 
 
 def sweep_classes(tag, seed, nrand, full_limit):
@@ -563,7 +605,7 @@ def check_block_generator():
 def parallel_trace_specs(tag, files, module, cfg, parallel=12):
     """run_trace_spec over many files side by side"""
     import concurrent.futures
-    tot = {"lines": 0, "consumed": 0, "states": 0, "compared": 0, "unspec": 0}
+    tot = {"lines": 0, "consumed": 0, "states": 0, "compared": 0, "unspec": 0, "differ": 0}
     mism = []
     with concurrent.futures.ThreadPoolExecutor(max_workers=parallel) as ex:
         futs = {ex.submit(run_trace_spec, tag, f, module, cfg): f for f in files}
